@@ -191,6 +191,17 @@ package keeper
 //@   ensures $trGenesis == store(old($trGenesis), vestingAccountTrace.Address, vestingAccountTrace.Genesis)
 //@   ensures $trFromGenesisPool == store(old($trFromGenesisPool), vestingAccountTrace.Address, vestingAccountTrace.FromGenesisPool)
 //@   ensures $trFromGenesisAccount == store(old($trFromGenesisAccount), vestingAccountTrace.Address, vestingAccountTrace.FromGenesisAccount)
+//@ func (k Keeper) GetVestingAccountTrace(ctx, address) (val, found)
+//@   trusted
+//@   ensures found == $trFound[address]
+//@   ensures found ==> val.Address == address && val.Genesis == $trGenesis[address] && val.FromGenesisPool == $trFromGenesisPool[address]
+//@     && val.FromGenesisAccount == $trFromGenesisAccount[address]
+//@ // C17: an account is genesis-derived iff it has a trace with one of the three lineage flags
+//@ pred genesisDerived(a) = $trFound[a] && ($trGenesis[a] || $trFromGenesisPool[a] || $trFromGenesisAccount[a])
+//@ pred tracesUnchangedExcept(a) = forall b: str :: {$trFound[b]} b != a ==> $trFound[b] == old($trFound[b]) && $trGenesis[b] == old($trGenesis[b])
+//@     && $trFromGenesisPool[b] == old($trFromGenesisPool[b]) && $trFromGenesisAccount[b] == old($trFromGenesisAccount[b])
+//@ pred tracesUnchanged() = $trFound == old($trFound) && $trGenesis == old($trGenesis) && $trFromGenesisPool == old($trFromGenesisPool)
+//@     && $trFromGenesisAccount == old($trFromGenesisAccount)
 //@ func (k Keeper) Denom(ctx) (res)
 //@   trusted
 //@   ensures res == $vestingDenom
@@ -295,7 +306,7 @@ package keeper
 //@     (forall d: str :: {$bal[fromBech32(toAddress)][d]} $bal[fromBech32(toAddress)][d] == old($bal[fromBech32(toAddress)][d]) + amount[d])
 //@     && (forall d: str :: {$bal[fromBech32(fromAddress)][d]} $bal[fromBech32(fromAddress)][d] == old($bal[fromBech32(fromAddress)][d]) - amount[d])
 //@   ensures forall a: str :: {$bal[a]} a != fromBech32(fromAddress) && a != fromBech32(toAddress) ==> $bal[a] == old($bal[a])
-//@   prop C09 C08 C20
+//@   prop C09 C08 C17 C20
 //@
 //@ // the sender's own vesting account: only its OriginalVesting shrinks
 //@ func (k Keeper) UnlockUnbondedContinuousVestingAccountCoins(ctx, ownerAddress, amountToUnlock) (acc, err)
@@ -331,7 +342,16 @@ package keeper
 //@     && (forall d: str :: {$accOV[from][d]} $accOV[from][d] <= old($accOV[from][d]))
 //@   // C07 (structural part): the recipient is a new continuous vesting account holding `amount`, same end, start = max(now, sender start)
 //@   ensures err == nil && from != toAddress ==> isNewCVA(toAddress, amount, max(fdiv($blockTime, 1000000000), old($accStart[from])), old($accEnd[from]))
-//@   prop C09 C07 C20x
+//@   // C17: lineage is inherited, to any depth: the recipient is recorded as genesis-derived exactly if the sender is; the pool
+//@   // flag is copied, "from a genesis account" is set if the sender is a genesis account or descends from one; a sender without
+//@   // a trace leaves the recipient untraced; no other trace changes, and a rejected message changes none
+//@   ensures [lineage] err == nil && old($trFound[toBech32(from)]) ==> $trFound[toBech32(toAddress)] && !$trGenesis[toBech32(toAddress)]
+//@     && $trFromGenesisPool[toBech32(toAddress)] == old($trFromGenesisPool[toBech32(from)])
+//@     && $trFromGenesisAccount[toBech32(toAddress)] == old($trGenesis[toBech32(from)] || $trFromGenesisAccount[toBech32(from)])
+//@   ensures [lineage-derived] err == nil && old($trFound[toBech32(from)]) && toBech32(from) != toBech32(toAddress) ==> genesisDerived(toBech32(toAddress)) == old(genesisDerived(toBech32(from)))
+//@   ensures [lineage-untraced] err != nil || !old($trFound[toBech32(from)]) ==> tracesUnchanged()
+//@   ensures [lineage-frame] tracesUnchangedExcept(toBech32(toAddress))
+//@   prop C09 C07 C17 C20x
 
 //@ // ---- C05: the locked sum of an owner, and how the three operations change it ----
 //@ spec func sumLocked(il [int]int, s [int]int, w [int]int, n int) int = n <= 0 ? 0 : sumLocked(il, s, w, n - 1) + il[n - 1] - s[n - 1] - w[n - 1]
@@ -437,7 +457,7 @@ package keeper
 //@ // ---- declared effects (checked per call instruction by the effect checker; anything not listed is effect-free) ----
 //@ effects Keeper.CreateVestingAccount auth.setaccount bank.send
 //@ effects Keeper.CreateVestingPool bank.send
-//@ effects Keeper.SendToNewVestingAccount auth.setaccount bank.send
+//@ effects Keeper.SendToNewVestingAccount auth.setaccount bank.send trace.write
 //@ effects Keeper.UnlockUnbondedContinuousVestingAccountCoins auth.setaccount
 //@ effects Keeper.WithdrawAllAvailable bank.send
 //@ effects Keeper.addVestingPool bank.send
@@ -445,9 +465,12 @@ package keeper
 //@ effects Keeper.newVestingAccount auth.setaccount bank.send
 //@ effects msgServer.CreateVestingAccount auth.setaccount bank.send
 //@ effects msgServer.CreateVestingPool bank.send
-//@ effects msgServer.MoveAvailableVesting auth.setaccount bank.send
-//@ effects msgServer.MoveAvailableVestingByDenoms auth.setaccount bank.send
-//@ effects msgServer.SendToVestingAccount auth.setaccount bank.send
-//@ effects msgServer.SplitVesting auth.setaccount bank.send
+//@ effects msgServer.MoveAvailableVesting auth.setaccount bank.send trace.write
+//@ effects msgServer.MoveAvailableVestingByDenoms auth.setaccount bank.send trace.write
+//@ effects msgServer.SendToVestingAccount auth.setaccount bank.send trace.write
+//@ effects msgServer.SplitVesting auth.setaccount bank.send trace.write
 //@ effects msgServer.WithdrawAllAvailable bank.send
-//@ effects msgServer.splitVestingCoins auth.setaccount bank.send
+//@ effects msgServer.splitVestingCoins auth.setaccount bank.send trace.write
+//@ effects Keeper.AppendVestingAccountTrace trace.write
+//@ effects Keeper.SetVestingAccountTrace trace.write
+//@ effects Keeper.RemoveVestingAccountTrace trace.write
